@@ -130,12 +130,27 @@ func (w *xw) close(name string) { w.sb.WriteString("</" + name + ">") }
 
 func (w *xw) text(name, s string) {
 	w.sb.WriteString("<" + name + ">")
+	w.chars(s, true)
+	w.sb.WriteString("</" + name + ">")
+}
+
+// chars writes character data, possibly in several chunks: a comment or a
+// CDATA boundary in the middle of a text does not change the text.
+func (w *xw) chars(s string, maySplit bool) {
+	if rs := []rune(s); maySplit && w.l.CharRefs && w.l.Whitespace && len(rs) >= 2 && w.rnd.Intn(4) == 0 {
+		k := 1 + w.rnd.Intn(len(rs)-1)
+		w.chars(string(rs[:k]), false)
+		if w.rnd.Intn(2) == 0 {
+			w.sb.WriteString("<!-- c -->")
+		}
+		w.chars(string(rs[k:]), false)
+		return
+	}
 	if w.l.CharRefs && s != "" && !strings.Contains(s, "]]>") && !strings.ContainsAny(s, "\r") && w.rnd.Intn(3) == 0 {
 		w.sb.WriteString("<![CDATA[" + s + "]]>")
 	} else {
 		w.sb.WriteString(w.escape(s, false, 0))
 	}
-	w.sb.WriteString("</" + name + ">")
 }
 
 func (w *xw) unknownChild() {
